@@ -745,3 +745,84 @@ Definition ttext_of (name : bytes) (parent_name : option bytes) (f : tfile) : tt
 
 Definition tfile_of (t : ttext) (parent : option tfile) : tfile :=
   TFile (tt_csr t) (tt_singles t) (tt_ranges t) parent.
+
+(* ------------------------------------------------------------------------ *)
+(* CMap objects in a PDF file and the resolution of parents (Embed / Extract) *)
+
+(* what File.Embed returns for a CID CMap: the name of a predefined CMap, or a stream whose dictionary may
+   carry a /UseCMap entry *)
+Inductive pobj :=
+| PName (n : bytes)
+| PStream (ts : list token) (usecmap : option pobj).
+
+(* a File with its Parent pointers before embedding: the predefined object itself (IsPredefined compares
+   pointers), or a custom file - whatever its NAME is, also one a predefined CMap has *)
+Inductive efile :=
+| EPredef (n : bytes)
+| ECustom (t : ctext) (parent : option efile).
+
+Definition efile_name (e : efile) : bytes :=
+  match e with
+  | EPredef n => n
+  | ECustom t _ => ct_name t
+  end.
+
+Definition with_parent_name (t : ctext) (pn : option bytes) : ctext :=
+  CText (ct_name t) (ct_wmode t) (ct_ros t) pn (ct_csr t) (ct_singles t) (ct_ranges t) (ct_nd_singles t) (ct_nd_ranges t).
+
+(* Embed: a predefined object by name; otherwise the stream with `/ParentName usecmap` in the text and the
+   embedded parent under /UseCMap *)
+Fixpoint embed_cid (e : efile) : pobj :=
+  match e with
+  | EPredef n => PName n
+  | ECustom t par =>
+      PStream (write_tokens_cid (with_parent_name t (match par with Some p => Some (efile_name p) | None => None end)))
+              (match par with Some p => Some (embed_cid p) | None => None end)
+  end.
+
+Section Resolver.
+  (* cmap.Predefined: the CMaps the library ships, by name *)
+  Variable predefined : bytes -> option cfile.
+
+  (* Extract: a name is looked up among the predefined CMaps; for a stream the /UseCMap entry decides the
+     parent (a parent that cannot be extracted leaves the file without parent); only without that entry the
+     name given to the usecmap operator is looked up among the predefined CMaps *)
+  Fixpoint extract_cid (o : pobj) : option cfile :=
+    match o with
+    | PName n => predefined n
+    | PStream ts use =>
+        match read_tokens_cid ts with
+        | None => None
+        | Some t =>
+            match use with
+            | Some u => Some (cfile_of t (extract_cid u))
+            | None => Some (cfile_of t (match ct_parent t with Some n => predefined n | None => None end))
+            end
+        end
+    end.
+
+  (* the resolution order the seeded change C13-8 introduced: the usecmap NAME first *)
+  Fixpoint extract_cid_name_first (o : pobj) : option cfile :=
+    match o with
+    | PName n => predefined n
+    | PStream ts use =>
+        match read_tokens_cid ts with
+        | None => None
+        | Some t =>
+            match (match ct_parent t with Some n => predefined n | None => None end) with
+            | Some p => Some (cfile_of t (Some p))
+            | None => match use with
+                      | Some u => Some (cfile_of t (extract_cid_name_first u))
+                      | None => Some (cfile_of t None)
+                      end
+            end
+        end
+    end.
+
+  (* the File chain an efile stands for *)
+  Fixpoint efile_meaning (e : efile) : option cfile :=
+    match e with
+    | EPredef n => predefined n
+    | ECustom t par => Some (cfile_of t (match par with Some p => efile_meaning p | None => None end))
+    end.
+End Resolver.
